@@ -297,3 +297,17 @@ def apalache(module, obligations, timeout=900):
         out.append({"obligation": name, "args": " ".join(args), "discharged": ok, "wall_s": round(time.time() - t0, 1)})
     shutil.rmtree(os.path.join(WORK, "apalache-out"), ignore_errors=True)
     return out
+
+
+def tlaps(module, timeout=900):
+    """checks a TLAPS proof; returns dict with the number of obligations and whether all were proved"""
+    tdir = os.path.join(SPEC, "tlaps")
+    t0 = time.time()
+    try:
+        p = subprocess.run(["tlapm", "--threads", "6", "--cleanfp", module], cwd=tdir, stdout=subprocess.PIPE, stderr=subprocess.STDOUT, text=True, timeout=timeout)
+        out = p.stdout
+    except subprocess.TimeoutExpired:
+        out = ""
+    shutil.rmtree(os.path.join(tdir, ".tlacache"), ignore_errors=True)
+    m = re.search(r"All (\d+) obligations? proved", out)
+    return {"module": module, "obligations": int(m.group(1)) if m else 0, "all_proved": bool(m), "wall_s": round(time.time() - t0, 1)}
